@@ -139,7 +139,10 @@ void kb_boundary() {
       op_begin(0, next);
       bool ok = q->try_push(enc((int)(next & 0xffffff)));
       op_end(ok);
-      if (!ok) fail("ORACLE", "try_push rejected although only %ld of %ld slots are used (push #%ld)", stored, k * segs, next);
+      // C06: a push may be rejected only if at least (segments-1)*k+1 values are stored (the first version demanded
+      // all k*segments slots - a false alarm of the thorough tier for k = 2)
+      if (!ok && stored >= (segs - 1) * k + 1) break;
+      if (!ok) fail("ORACLE", "try_push rejected although only %ld values are stored, fewer than (segments-1)*k+1 = %ld (push #%ld)", stored, (segs - 1) * k + 1, next);
       next++;
       stored++;
     }
